@@ -57,6 +57,11 @@ CHECKS = {
             "Every request type is sent valid, with size+1, truncated body, REPLY flag, invalid body or unknown code, carrying 0..=40 distinct memfds attached to header or body, optionally followed by a second descriptor-carrying message, and the endpoints are torn down before serving, after the first or after the second message, with a handler that keeps or drops its files; likewise every frontend operation's reply with 0..=33 unexpected descriptors, a full successful session with lent descriptors, and the frontend request server with 0..=40 descriptors. After teardown, for every passed file the number of open descriptors must be 1 (the harness's original) plus the copies the application holds, no identity is delivered twice, descriptors lent to sending calls are still open and the same file, and the process's descriptor numbers equal the snapshot taken before plus what is held.",
             "Trusted: /proc/self/fd, fstat. Serial execution inside one process. Daemon-level scenarios (vring kick/call files) are covered by the daemon checks' own accounting where present.",
             "DESIGN.md 4/C09"),
+    "C10": ("model_checking", "sched",
+            "stateless depth-first exploration of the interleavings of 2-3 real caller threads on clones of one endpoint and an answering peer, under a controlled scheduler with scheduling points at the endpoint mutex (lock hook), sendmsg and recvmsg",
+            "Two (three at thorough) real threads each perform one call on clones of the same Frontend, Backend proxy or GPU proxy; the peer is an environment actor that consumes exactly one request at a time and answers it with a reply tagged by the request's identity. All schedules with at most 2 (4 at thorough) preemptions are enumerated for ordered pairs of reply-bearing, acknowledged and fire-and-forget operations (NEED_REPLY on/off, ack/no-ack mode). Whether a thread can proceed at the endpoint mutex is decided by try_lock while every thread is parked, so 'all calls complete' and self-deadlock are decided without timeouts. Oracle in every state: no request is on the wire while a reply is unread at the endpoint and no request sits behind a reply-awaiting request; at the end every caller returned the value tagged for its own request and all callers terminated.",
+            "Trusted: the lock_point hook sits in front of the endpoint mutex acquisition (a mutant that bypasses node() is still handled: a thread blocked in a futex is detected through /proc). Preemption-bounded exploration; randomized stress is not claimed.",
+            "DESIGN.md 4/C10"),
     "C11": ("model_checking", "xstate",
             "explicit-state BFS to closure over control-message histories on a real VhostUserDaemon, reference vring state machine co-executed on every transition, state key = model state + implementation state (ring flags, epoll registrations)",
             "Breadth-first search over histories of {SET_FEATURES with/without PROTOCOL_FEATURES, SET_VRING_KICK new/no descriptor, SET_VRING_CALL, SET_VRING_ENABLE 0/1, GET_VRING_BASE, RESET_DEVICE, guest kick on the current descriptor} on two rings of a real daemon (RwLock and Mutex rings, one and two workers), every message acknowledged and a two-round probe listener on each worker as ordering barrier, so 'not dispatched' is observed without sleeping. After every step the dispatch count per ring must equal the reference model's (a pending kick is dispatched iff the ring is started and enabled now; kicks raised while inactive stay in the eventfd and are dispatched by the activating step), GET_VRING_BASE returns the index and drops both descriptors, and each worker's epoll set (read from /proc fdinfo) holds exactly the kick descriptors of active rings. The key includes the implementation's ring flags and epoll registrations; closure is reached at 296 states (depth 9).",
